@@ -1,1 +1,32 @@
+// Kani harnesses for the assumed contract A-WHICH-MAX (specs/prelude/which_max.rs), child module of
+// src/tree/decision_tree_classifier.rs.  `which_max` iterates with `x.iter().enumerate().skip(1)` (outside the Verus subset);
+// callers are verified against
+//     requires x.len() > 0
+//     ensures  w < x.len(),  forall j: x[j] <= x[w],  forall j < w: x[j] < x[w]      (FIRST index of a maximal element)
+// Discharged here for every slice of length 1..=4 (all usize values).
 use super::*;
+
+macro_rules! h_which_max {
+    ($name:ident, $n:expr, $unw:expr) => {
+        #[kani::proof]
+        #[kani::unwind($unw)]
+        fn $name() {
+            const N: usize = $n;
+            let x: [usize; N] = kani::any();
+            let w = which_max(&x);
+            assert!(w < N, "which_max: the result is an index of the slice");
+            for j in 0..N {
+                assert!(x[j] <= x[w], "which_max: the indexed element is a maximum");
+                if j < w {
+                    assert!(x[j] < x[w], "which_max: the result is the FIRST index of a maximal element");
+                }
+            }
+            kani::cover!(w == N - 1);
+            kani::cover!(w == 0 && x[0] == x[N - 1]);
+        }
+    };
+}
+h_which_max!(c04_which_max_1, 1, 6);
+h_which_max!(c04_which_max_2, 2, 6);
+h_which_max!(c04_which_max_3, 3, 6);
+h_which_max!(c04_which_max_4, 4, 8);
